@@ -283,3 +283,85 @@ def save_im_quant(repo, relpath="holopy/core/io/io.py", name="save_im_src"):
     out += "Definition %s_quant (depth : Z) (im : R) : R :=\n  %s.\n" % (name, ex(q.value))
     out += "Definition %s_guard_cast : list string := %s.\n" % (name, _strlist([ast.unparse(guard.test), ast.unparse(cast)]))
     return out
+
+
+# ---------------------------------------------------------------------------------------------------------------------
+# to_vector (core/metadata.py): the normalisation of a polarisation vector, read per component over the list of components
+
+def _vec_ex(e, src, names):
+    """elementwise expression over the component list `l` with generic component `c`; `names`: scalar names in scope"""
+    if isinstance(e, ast.Name):
+        if e.id == "c":
+            return "c"
+        if e.id in names:
+            return e.id
+        raise Unsupported("name %s" % e.id)
+    if isinstance(e, ast.Constant) and isinstance(e.value, int) and not isinstance(e.value, bool):
+        return "(%d)" % e.value
+    if isinstance(e, ast.Constant) and isinstance(e.value, float):
+        return _decimal(src, e)
+    if isinstance(e, ast.BinOp) and isinstance(e.op, ast.Pow) and isinstance(e.right, ast.Constant) and e.right.value == 2:
+        b = _vec_ex(e.left, src, names)
+        return "(%s * %s)" % (b, b)
+    if isinstance(e, ast.BinOp):
+        for k, s in {ast.Add: "+", ast.Sub: "-", ast.Mult: "*", ast.Div: "/"}.items():
+            if isinstance(e.op, k):
+                return "(%s %s %s)" % (_vec_ex(e.left, src, names), s, _vec_ex(e.right, src, names))
+    if isinstance(e, ast.Call):
+        d = pysrc._dotted(e.func)
+        if d == "np.sqrt" and len(e.args) == 1 and not e.keywords:
+            return "(sqrt %s)" % _vec_ex(e.args[0], src, names)
+        if d == "np.abs" and len(e.args) == 1 and not e.keywords:
+            return "(Rabs %s)" % _vec_ex(e.args[0], src, names)
+        if d == "np.sum" and len(e.args) == 1 and not e.keywords:
+            return "(vsum (fun c : R => %s) l)" % _vec_ex(e.args[0], src, names)
+        if isinstance(e.func, ast.Attribute) and e.func.attr == "sum" and [ast.unparse(a) for a in e.args] == ["vector"] and not e.keywords:
+            return "(vsum (fun c : R => %s) l)" % _vec_ex(e.func.value, src, names)
+    raise Unsupported("expression %s" % ast.unparse(e))
+
+
+def to_vector(repo, relpath="holopy/core/metadata.py", name="to_vector_src"):
+    with open(os.path.join(repo, relpath)) as f:
+        src = f.read()
+    fn = pysrc.find_function(ast.parse(src), "to_vector")
+    if [a.arg for a in fn.args.args] != ["c"]:
+        raise Unsupported("signature of to_vector")
+    body = [s for s in fn.body if not (isinstance(s, ast.Expr) and isinstance(s.value, ast.Constant))]
+    out = "Definition vsum (f : R -> R) (l : list R) : R := fold_right (fun x a => f x + a) 0 l.\n"
+    # --- the labelled branch: if hasattr(c, vector): norm = ...; if (<test>).all(): return c; return c / norm
+    lab = [s for s in body if isinstance(s, ast.If) and ast.unparse(s.test) == "hasattr(c, vector)"]
+    if len(lab) != 1 or lab[0].orelse or len(lab[0].body) != 3:
+        raise Unsupported("labelled branch of to_vector changed shape")
+    a, t, r = lab[0].body
+    if not (isinstance(a, ast.Assign) and ast.unparse(a.targets[0]) == "norm"):
+        raise Unsupported("labelled branch: first statement is not norm = ...")
+    out += "Definition %s_lab_norm (l : list R) : R :=\n  %s.\n" % (name, _vec_ex(a.value, src, set()))
+    if not (isinstance(t, ast.If) and not t.orelse and len(t.body) == 1 and isinstance(t.body[0], ast.Return)
+            and ast.unparse(t.body[0].value) == "c" and isinstance(t.test, ast.Call) and isinstance(t.test.func, ast.Attribute)
+            and not t.test.args and not t.test.keywords and isinstance(t.test.func.value, ast.Compare)
+            and len(t.test.func.value.ops) == 1 and isinstance(t.test.func.value.ops[0], ast.Lt)):
+        raise Unsupported("labelled branch: unit-length test %s" % ast.unparse(t)[:80])
+    cmp_ = t.test.func.value
+    out += "Definition %s_lab_unit (norm : R) : bool :=\n  Rltb %s %s.\n" % (
+        name, _vec_ex(cmp_.left, src, {"norm"}), _vec_ex(cmp_.comparators[0], src, {"norm"}))
+    out += "Definition %s_lab_reduce : string := \"%s\"%%string.\n" % (name, t.test.func.attr)
+    if not isinstance(r, ast.Return):
+        raise Unsupported("labelled branch: last statement")
+    out += "Definition %s_lab_elem (norm : R) (c : R) : R :=\n  %s.\n" % (name, _vec_ex(r.value, src, {"norm"}))
+    # --- the plain branch: c = np.array(c); if c.shape == (2,): c = np.append(c, 0); c = c / ...; return DataArray(c, ...)
+    i = next((k for k, s in enumerate(body) if isinstance(s, ast.Assign) and ast.unparse(s) == "c = np.array(c)"), None)
+    if i is None or len(body) != i + 4:
+        raise Unsupported("plain branch of to_vector changed shape")
+    pad, nrm, ret = body[i + 1:]
+    if not (isinstance(pad, ast.If) and not pad.orelse and ast.unparse(pad.test) == "c.shape == (2,)" and len(pad.body) == 1
+            and ast.unparse(pad.body[0]) == "c = np.append(c, 0)"):
+        raise Unsupported("padding of a 2-vector: %s" % ast.unparse(pad)[:80])
+    if not (isinstance(nrm, ast.Assign) and ast.unparse(nrm.targets[0]) == "c"):
+        raise Unsupported("normalisation line")
+    out += "Definition %s_elem (l : list R) (c : R) : R :=\n  %s.\n" % (name, _vec_ex(nrm.value, src, set()))
+    if not (isinstance(ret, ast.Return) and isinstance(ret.value, ast.Call) and pysrc._dotted(ret.value.func) == "xr.DataArray"
+            and [ast.unparse(x) for x in ret.value.args] == ["c"]):
+        raise Unsupported("return of to_vector")
+    kw = {k.arg: ast.unparse(k.value) for k in ret.value.keywords}
+    out += "Definition %s_labels : list string := %s.\n" % (name, _strlist(["%s=%s" % (k, kw[k].replace('"', "'")) for k in sorted(kw)]))
+    return out
